@@ -171,6 +171,9 @@ func build(base string, startLoops bool) (a *asm, err error) {
 		Filters:                    []filtering.FilterYAML{{Enabled: true, URL: filepath.Join(srcDir, "block.txt"), Name: "block", Filter: filtering.Filter{ID: 1}}},
 		WhitelistFilters:           []filtering.FilterYAML{{Enabled: true, URL: filepath.Join(srcDir, "allow.txt"), Name: "allow", Filter: filtering.Filter{ID: 2}}},
 		HTTPClient:                 &http.Client{Timeout: time.Second},
+		// Global safe search is on, so that every A/AAAA/HTTPS request consults
+		// the engine that PUT /control/safesearch/settings replaces.
+		SafeSearchConf: filtering.SafeSearchConfig{Enabled: true, Bing: true, DuckDuckGo: true, Ecosia: true, Google: true, Pixabay: true, Yandex: true, YouTube: true},
 	}
 	fc.SafeSearch, err = safesearch.NewDefault(ctx, &safesearch.DefaultConfig{Logger: srv.Discard, ServicesConfig: fc.SafeSearchConf, CacheSize: 1 << 16, CacheTTL: time.Minute})
 	if err != nil {
@@ -419,7 +422,7 @@ var operations = []opBody{
 		return expect2xx(c, b, "protection")
 	}},
 	{"safesearch-settings", func(a *asm) string {
-		c, b := a.call("PUT", "/control/safesearch/settings", `{"enabled":true,"bing":true,"duckduckgo":true,"ecosia":true,"google":true,"pixabay":true,"yandex":true,"youtube":true}`)
+		c, b := a.call("PUT", "/control/safesearch/settings", `{"enabled":true,"bing":true,"duckduckgo":false,"ecosia":true,"google":true,"pixabay":true,"yandex":true,"youtube":false}`)
 		return expect2xx(c, b, "safesearch/settings")
 	}},
 	{"querylog-config", func(a *asm) string {
